@@ -360,6 +360,57 @@ def metamodel_pass(ctx):
                 ctx.diverge(f'metamodel case {tag}: {what}: model `{got}` vs implementation `{want}` (`{line}`)', {'case': list(tag)})
 
 
+def equal_twins_pass(ctx):
+    """objects that compare equal without being the same object (a static class defining __eq__ / __hash__ on a name): two
+    equal roots of one resource, equal children in a list-like containment — every one of them has a fragment of its own
+    that resolves to it"""
+    from pyecore import ecore as E
+    from pyecore.resources.resource import Resource
+    for k in range(12 if ctx.quick() else 150):
+        rng = common.sub_rng(ctx.seed, 'C11', 'twins', k)
+
+        class Box(E.EObject, metaclass=E.MetaEClass):
+            name = E.EAttribute(eType=E.EString)
+            kids = E.EReference(upper=-1, containment=True, unique=False)
+
+            def __init__(self, name=None):
+                super().__init__()
+                self.name = name
+
+            def __eq__(self, other):
+                return isinstance(other, Box) and other.name == self.name
+
+            def __hash__(self):
+                return hash(self.name)
+        Box.kids.eType = Box
+        r = Resource()
+        roots = [Box(rng.choice('ab')) for _ in range(rng.randint(2, 4))]
+        for x in roots:
+            r.append(x)
+        everything = list(roots)
+        for _ in range(rng.randint(2, 6)):
+            parent = rng.choice(everything)
+            c = Box(rng.choice('kl'))
+            parent.kids.append(c)
+            everything.append(c)
+        ctx.evaluations += 1
+        ctx.nontriv(('twins', k))
+        seen = {}
+        for o in everything:
+            try:
+                fr = o.eURIFragment()
+                got = r.resolve(fr)
+            except Exception as e:
+                fr, got = '?', f'raised {type(e).__name__}'
+            if got is not o or fr in seen:
+                ctx.violate({'clause': 'resolve', 'equal_twins': True},
+                            f'resolve: among objects that compare equal (roots {[x.name for x in roots]}), fragment {fr!r} of an object '
+                            f'{"is shared with another one" if fr in seen else "resolves to " + (got if isinstance(got, str) else "another object")}',
+                            {'twins': k})
+                return
+            seen[fr] = o
+
+
 def id_lookup_pass(ctx):
     """ids after a load, for id attributes of every textual type: each loaded object is found by the text of its id, in
     XMI and in JSON, and a reference written by id reaches it"""
@@ -520,6 +571,7 @@ def run(ctx):
     common.use_repo()
     failed_load_pass(ctx)
     id_lookup_pass(ctx)
+    equal_twins_pass(ctx)
     n = 250 if ctx.quick() else 4000
     nops = 25 if ctx.quick() else 40
     ctx.rule = (f'{n} containment-heavy histories (<= {nops} ops: insert/remove/pop/move at all positions, 1-3 resources, roots '
